@@ -2,7 +2,7 @@
    what rs2v generates equals the model (Model/Api.v). *)
 From BV Require Import Alg.Field Alg.Dlog Sem.Base Model.Oracles Model.Helpers Model.Varint Model.Core
      Model.Protocols Model.Api Theory.VarintFacts Gen.Consts Gen.Funcs Refine.Prelude Refine.Tactics Refine.Frames
-     Refine.SigCore Refine.SigSchemes Refine.PoK Refine.SignCrypt Refine.TimeLock Refine.ElGamal.
+     Refine.SigCore Refine.SigSchemes Refine.SignCrypt Refine.TimeLock Refine.ElGamal.
 
 Section R.
   Context {K : FieldOps} (O : Oracles K) (C : Impl) (dbg : bool) (ent : nat -> bytes) (now : N).
